@@ -1,6 +1,7 @@
 """C08 - plug lifecycle.  Spec: Executor.tla (PlugCtor / PlugsDone /
 PlugTearDown, invariants AtMostOneInstance, TornDownOnce, PlugTdAfterNodes)."""
 from checks import execlib
+from vf import common
 
 OWNED = {'plugs': 'plugs', 'no_return': 'execute() did not return',
          'executor_crash': 'executor thread failed', 'outcome': 'outcome with plug faults'}
@@ -22,6 +23,9 @@ def families(tier):
 
 def main(chk):
   execlib.run_families(chk, families(chk.tier), OWNED, extra=dict(plug_timeout=True))
+  # "tearDown ... before the output callbacks, whatever the outcome (... abort)": real threads, real SIGINT
+  from checks import c09
+  c09.real_sigint(chk, owned='plugs')
   chk.cov['rule'] = ('assignments of <=3 plug classes to phases/test_start x constructor and tearDown fault '
                      'vectors x phase behaviours; non-trivial = at least two invocations or one record')
   chk.assumptions += ['hanging tearDown runs under virtual time with plug_teardown_timeout_s=3']
@@ -31,4 +35,16 @@ def main(chk):
 
 
 def replay(path):
+  import json
+  with open(path) as fh:
+    sc = json.load(fh)['scenario']
+  if sc.get('scenario') == 'real SIGINT':
+    from checks import c09
+    chk = common.Check('C08', 'quick', 0)
+    c09.real_sigint(chk, owned='plugs')
+    for sig, det in chk.violations:
+      print('VIOLATION property=C08 replay=%s\n  what: %s' % (path, sig))
+      return 1
+    print('replay: plug tearDown completes before the output callbacks under a real SIGINT')
+    return 0
   return execlib.replay_file(path, OWNED, 'C08', families)
